@@ -3,7 +3,7 @@
    an admissible split (1 <= #levels <= max_levels, positive widths summing to the bit length of
    the maximum) of minimum total size among ALL admissible splits. *)
 From Sucds Require Import Base.Res Spec.DacSpec Model.CompactVector Model.Dacs
-  Proofs.DP_Hist Proofs.DP_Opt Proofs.DP_Walk.
+  Proofs.DP_Hist Proofs.DP_Opt Proofs.DP_Walk Proofs.C18Driver.
 Open Scope N_scope.
 
 Theorem C18_optimal : forall c vals ml,
@@ -14,6 +14,19 @@ Theorem C18_optimal : forall c vals ml,
 Proof. exact compute_opt_widths_optimal. Qed.
 
 Print Assumptions C18_optimal.
+
+(* The form the driver uses for inputs of any size (Extract/Dispatch.v, op 81): widths are optimal iff they are
+   admissible and cost exactly what the model's widths cost. *)
+Theorem C18_driver_form : forall c vals ml,
+  vals <> [] -> 1 <= ml -> ml <= 64 -> Forall (fun x => x < W) vals -> lenN vals < 2^56 ->
+  exists wm, compute_opt_widths c vals ml = Ok wm /\
+    forall ws, (DacSpec.admissible vals ws ml = true /\
+                forall ws', DacSpec.admissible vals ws' ml = true -> DacSpec.cost vals ws <= DacSpec.cost vals ws') <->
+               (DacSpec.admissible vals ws ml = true /\ DacSpec.cost vals ws = DacSpec.cost vals wm).
+Proof. exact optimal_iff_cost_of_model. Qed.
+
+Print Assumptions C18_driver_form.
+
 
 (* A concrete input satisfying the hypotheses, the widths produced (debug and release builds),
    and the agreement with the brute-force minimum of the spec. *)
